@@ -123,6 +123,10 @@ def units(w):
         return Unit(f"{file}::main", lambda it: ([], {}, {}), None, name=f"{file}::main[module path wiring]", body=body, canary=False)
     U.append(host_unit("run.py"))
     U.append(host_unit("repl.py"))
+    # module table and load stack are found through the base of the *current* scope chain - also from a host-supplied scope that
+    # Interpreter.interpret attaches for one run (unit of C09)
+    from . import c09
+    U.extend(u for u in c09.units(w) if "Environment.getBase[" in u.name)
     # the stack of modules being loaded is one per interpreter and stays in place while a script runs - also a script started from
     # module code through run(): a require inside it sees which modules are still loading (cycles are reported, not re-entered)
     from .common import Stubs as _Stubs, real_env as _real_env
